@@ -52,6 +52,7 @@ static inline myth_thread_t get_new_myth_thread_struct_desc(myth_running_env_t e
 #endif
   void * v_ret = myth_freelist_pop(&env->freelist_desc);
   if (v_ret){
+    MYTH_VERIF_ALLOC(MYTH_VK_DESC, v_ret, sizeof(struct myth_thread), env->rank);
     return v_ret;
   } else {
     //Allocate
@@ -92,6 +93,7 @@ static inline myth_thread_t get_new_myth_thread_struct_desc(myth_running_env_t e
     env->prof_data.daddlist_cycles += t3 - t2;
 #endif
   }
+  MYTH_VERIF_ALLOC(MYTH_VK_DESC, ret, sizeof(struct myth_thread), env->rank);
   return ret;
 #else
   myth_thread_t ret;
@@ -174,10 +176,12 @@ th_ptr -> 4080-4087:
     th_ptr += size_in_bytes - (sizeof(void*) * 2);
     uintptr_t *blk_size = (uintptr_t*) (th_ptr + sizeof(void*));
     *blk_size = size_in_bytes;
+    MYTH_VERIF_ALLOC(MYTH_VK_STACK, th_ptr, size_in_bytes, env->rank);
     return th_ptr;
   }
   void * ret = myth_freelist_pop(&env->freelist_stack);
   if (ret) {
+    MYTH_VERIF_ALLOC(MYTH_VK_STACK, ret, g_attr.stacksize, env->rank);
     return ret;
   } else {
     //Allocate
@@ -229,6 +233,7 @@ th_ptr -> 4080-4087:
     env->prof_data.saddlist_cycles += t3 - t2;
 #endif /* MYTH_ALLOC_PROF */
   }
+  MYTH_VERIF_ALLOC(MYTH_VK_STACK, ret, g_attr.stacksize, env->rank);
   return ret;
 #else
   return NULL;
@@ -264,6 +269,7 @@ static inline void free_myth_thread_struct_desc(myth_running_env_t e,myth_thread
     }*/
 #if MYTH_SPLIT_STACK_DESC
   myth_assert(th);
+  MYTH_VERIF_FREE(MYTH_VK_DESC, th, sizeof(struct myth_thread), e->rank, th);
 #if 0
   myth_queue_fini_thread_data(&th->queue_data);
 #endif
@@ -303,6 +309,7 @@ static inline void free_myth_thread_struct_stack(myth_running_env_t e,myth_threa
     ptr = (void**)th->stack;
 
     uintptr_t *blk_size = (uintptr_t*)(((uint8_t*)ptr) + sizeof(void*));
+    MYTH_VERIF_FREE(MYTH_VK_STACK, ptr, (*blk_size ? *blk_size : g_attr.stacksize), e->rank, th);
     if (*blk_size == 0) {
       myth_freelist_push(&e->freelist_stack, ptr);
     } else {
@@ -362,6 +369,7 @@ MYTH_CTX_CALLBACK void myth_create_1(void *arg1,void *arg2,void *arg3) {
   }
 #endif
   // Call entry point function
+  MYTH_VERIF_PROBE(MYTH_VP_ENTRY_CHILD_FIRST, new_thread);
   new_thread->result = (*fn)(new_thread->result);
   //myth_log_add(new_thread->env,MYTH_LOG_INT);
   myth_entry_point_cleanup(new_thread);
@@ -596,6 +604,10 @@ static inline int myth_join_body(myth_thread_t th,void **result) {
     myth_dprintf("myth_join:join thread (%p) is already finished. Return immediately\n",th);
 #endif
     myth_spin_unlock_body(&th->lock);
+    MYTH_VERIF_PROBE(MYTH_VP_JOIN_FAST, th);
+#if defined(MYTH_VERIF)
+    while (th->status != MYTH_STATUS_FREE_READY2) MYTH_VERIF_SPIN(MYTH_VS_JOIN_SPIN);
+#endif
     while (th->status != MYTH_STATUS_FREE_READY2);
 #if MYTH_JOIN_PROF_DETAIL
     if (result) *result = th->result;
@@ -634,6 +646,7 @@ static inline int myth_join_body(myth_thread_t th,void **result) {
     th->child_status_when_join_was_called = "child not finished and go to next";
 #endif
     next->env=env;
+    MYTH_VERIF_PROBE(MYTH_VP_JOIN_NEXT, th);
     //Switch to next runnable thread
     myth_swap_context_withcall(&this_thread->context,&next->context,myth_join_2,
 			       (void*)env,(void*)th,(void*)next);
@@ -645,6 +658,7 @@ static inline int myth_join_body(myth_thread_t th,void **result) {
 #endif
     //myth_log_add(this_thread->env,MYTH_LOG_WS);
     //Since there is no runnable thread, switch to scheduler and do work-steaing
+    MYTH_VERIF_PROBE(MYTH_VP_JOIN_SCHED, th);
     myth_swap_context_withcall(&this_thread->context,&env->sched.context,myth_join_3,
 			       (void*)this_thread,(void*)th,NULL);
   }
@@ -662,6 +676,9 @@ static inline int myth_join_body(myth_thread_t th,void **result) {
   myth_assert(myth_desc_is_finished(th));
   //Get return value
   myth_spin_unlock_body(&th->lock);
+#endif
+#if defined(MYTH_VERIF)
+  while (th->status != MYTH_STATUS_FREE_READY2) MYTH_VERIF_SPIN(MYTH_VS_JOIN_SPIN);
 #endif
   while (th->status != MYTH_STATUS_FREE_READY2) { }
   // use myth_get_current_env_noinline here to prevent compiler from sharing
@@ -690,6 +707,9 @@ static inline int myth_tryjoin_body(myth_thread_t th,void **result) {
   //If target is finished, return
   if (myth_desc_is_finished(th)){
     myth_spin_unlock_body(&th->lock);
+#if defined(MYTH_VERIF)
+    while (th->status != MYTH_STATUS_FREE_READY2) MYTH_VERIF_SPIN(MYTH_VS_JOIN_SPIN);
+#endif
     while (th->status != MYTH_STATUS_FREE_READY2) { }
     myth_join_1(env,th,result);
     //myth_log_add(env,MYTH_LOG_USER);
@@ -855,6 +875,7 @@ static inline int myth_create_join_many_ex_body(myth_thread_t * ids,
 
 static inline int myth_detach_body(myth_thread_t th)
 {
+  MYTH_VERIF_POINT(MYTH_VS_DETACH_RD);
   if (th->status==MYTH_STATUS_FREE_READY2){
     //If a thread is finished, just release resource
     free_myth_thread_struct_desc(myth_get_current_env(),th);
@@ -864,6 +885,9 @@ static inline int myth_detach_body(myth_thread_t th)
   myth_spin_lock_body(&th->lock);
   if (myth_desc_is_finished(th)){//If a thread is finished, release resource
     myth_spin_unlock_body(&th->lock);
+#if defined(MYTH_VERIF)
+    while (th->status != MYTH_STATUS_FREE_READY2) MYTH_VERIF_SPIN(MYTH_VS_JOIN_SPIN);
+#endif
     while (th->status!=MYTH_STATUS_FREE_READY2);
     free_myth_thread_struct_desc(myth_get_current_env(),th);
   }
@@ -1085,6 +1109,7 @@ static void __attribute__((unused)) myth_entry_point(void)
   myth_dprintf("Running thread %p(arg:%p)\n",this_thread,this_thread->arg);
 #endif
   //Execute a thread function
+  MYTH_VERIF_PROBE(MYTH_VP_ENTRY_PARENT_FIRST, this_thread);
   this_thread->result=(*(this_thread->entry_func))(this_thread->result);
   myth_entry_point_cleanup(this_thread);
 }
@@ -1116,7 +1141,9 @@ MYTH_CTX_CALLBACK void myth_entry_point_1(void *arg1,void *arg2,void *arg3)
     myth_spin_unlock_body(&this_thread->lock);
     this_thread->status = MYTH_STATUS_FREE_READY2;
 #else
+    MYTH_VERIF_POINT(MYTH_VS_STATUS_WR);
     this_thread->status=MYTH_STATUS_FREE_READY2;
+    MYTH_VERIF_PROBE(MYTH_VP_FREE_READY2, this_thread);
     myth_spin_unlock_body(&this_thread->lock);
 #endif
   }
@@ -1165,7 +1192,9 @@ MYTH_CTX_CALLBACK void myth_entry_point_2(void *arg1,void *arg2,void *arg3)
     myth_spin_unlock_body(&this_thread->lock);
     this_thread->status=MYTH_STATUS_FREE_READY2;
 #else
+    MYTH_VERIF_POINT(MYTH_VS_STATUS_WR);
     this_thread->status=MYTH_STATUS_FREE_READY2;
+    MYTH_VERIF_PROBE(MYTH_VP_FREE_READY2, this_thread);
     myth_spin_unlock_body(&this_thread->lock);
 #endif
   }
@@ -1230,6 +1259,7 @@ static inline void myth_entry_point_cleanup(myth_thread_t this_thread) {
     env->prof_data.ep_d_tmp = myth_get_rdtsc();
 #endif
     //Execute
+    MYTH_VERIF_PROBE(MYTH_VP_FINISH_WAITER, this_thread);
     myth_set_context_withcall(&wait_thread->context,
 			      myth_entry_point_1,
 			      (void*)env, this_thread, wait_thread);
@@ -1261,6 +1291,7 @@ static inline void myth_entry_point_cleanup(myth_thread_t this_thread) {
     this_thread->waiter = 0;
 #endif
     //Switch to the next thread
+    MYTH_VERIF_PROBE(MYTH_VP_FINISH_NEXT, this_thread);
     myth_set_context_withcall(&next->context, myth_entry_point_1,
 			      (void*)env, this_thread, next);
   } else {
@@ -1273,6 +1304,7 @@ static inline void myth_entry_point_cleanup(myth_thread_t this_thread) {
     this_thread->waiter = 0;
 #endif
     //Switch to the scheduler
+    MYTH_VERIF_PROBE(MYTH_VP_FINISH_SCHED, this_thread);
     myth_set_context_withcall(&env->sched.context, myth_entry_point_2,
 			      (void*)env, this_thread, NULL);
   }
